@@ -39,8 +39,16 @@ def main():
     if a.inner:
         sys.path.insert(0, HERE)
         import core
-        rc = core.drive(a.property.upper(), a.tier, seed, a.inner,
-                        only_case=a.case, nworkers=a.workers or None)
+        try:
+            rc = core.drive(a.property.upper(), a.tier, seed, a.inner,
+                            only_case=a.case, nworkers=a.workers or None)
+        except Exception:
+            # a failure of the machinery itself is "cannot decide" (exit 2),
+            # never a violation
+            import traceback
+            traceback.print_exc()
+            print("HARNESS-ERROR (cannot decide)", file=sys.stderr)
+            rc = 2
         sys.exit(rc)
 
     sys.path.insert(0, HERE)
